@@ -123,6 +123,49 @@ def rule_writer_finder(ck: Check, repo: Repo, folder: Folder) -> None:
     c08.rule_place_header(ck, repo, "R5")
 
 
+def rule_finder_predicate(ck: Check, repo: Repo, rid: str = "R6") -> None:
+    """The block finder recognises a header by contains_reuse_info(); that predicate must hold for a header
+    holding ANY kind of information annotate can write (copyright, licence, contributor) - otherwise the tool
+    does not find the header it wrote itself."""
+    from ..rules import bool_formula, equivalent
+    from ..tab import Valuation, evalf
+    from .c07 import set_fields
+    r = ck.rule(rid, "the header finder's predicate covers every kind of information annotate can write")
+    fields = set_fields(repo)
+    q = "reuse.extract.contains_reuse_info"
+    fn = repo.func(q)
+    ck.analysed_fn(q, "reuse.ReuseInfo.__bool__")
+    rets = [n.value for n in ast.walk(fn) if isinstance(n, ast.Return) and not (isinstance(n.value, ast.Constant) and n.value.value is False)]
+    if len(rets) != 1:
+        raise AnalysisError("contains_reuse_info: expected one positive return")
+    txt = ast.unparse(rets[0])
+    bq = repo.func("reuse.ReuseInfo.__bool__")
+    bool_all = [ast.unparse(n.value) for n in ast.walk(bq) if isinstance(n, ast.Return)] == ["any(self.__dict__.values())"]
+    ALL = ("or",) + tuple(fields)
+    forms = {
+        "bool(extract_reuse_info(text))": ALL if bool_all else None,
+        "extract_reuse_info(text).contains_info()": ALL,
+        "extract_reuse_info(text).contains_copyright_or_licensing()": ("or", "spdx_expressions", "copyright_lines"),
+        "extract_reuse_info(text).contains_copyright_xor_licensing()": ("xor", "spdx_expressions", "copyright_lines"),
+    }
+    f = forms.get(txt)
+    r.instance(q, {"returns": txt, "formula": repr(f), "fields_annotate_writes": fields})
+    if f is None:
+        raise AnalysisError(f"contains_reuse_info returns {txt}: unrecognised predicate")
+    import itertools
+    for bits in itertools.product([False, True], repeat=len(fields)):
+        d = dict(zip(fields, bits))
+        if any(bits) and not evalf(f, Valuation(d)):
+            only = [k for k, v in d.items() if v]
+            r.violation(q, f"a header holding only {'+'.join(only)} is not recognised as a REUSE header",
+                        f"contains_reuse_info returns `{txt}`; annotate can write such a header (e.g. --contributor alone) but"
+                        f" _find_first_spdx_comment will not find it again: every further run stacks a new header", repo.loc(fn))
+            break
+    ff = repo.func("reuse.header._find_first_spdx_comment")
+    if "if contains_reuse_info(comment):" not in ast.unparse(ff):
+        r.violation("reuse.header._find_first_spdx_comment", "finder predicate", "the finder must use contains_reuse_info(comment)", repo.loc(ff))
+
+
 def run(ck: Check, repo: Repo) -> None:
     ck.explanation = (
         "R1 order taint on everything reachable from annotate: no value whose order comes from a set or the file"
@@ -138,3 +181,4 @@ def run(ck: Check, repo: Repo) -> None:
     rule_order(ck, repo)
     rule_ambiguity(ck, repo, folder)
     rule_writer_finder(ck, repo, folder)
+    rule_finder_predicate(ck, repo)
